@@ -177,6 +177,16 @@ Definition scalar_hex_chars (v : N) : option nat := digit_loop 64 16 v.
 Definition atof_written (i len : N) : Prop := atof_loop_test i len = true \/ i = len.
 
 (* ---------------------------------------------------------------------------------------------
+   XPathProcessorImpl::tokenize, scan for the closing quote:
+       for(++i; test i nChars && (c = pat[i]) != quote; ++i);
+   scan_reads lists the indices of pat that are read, starting at i (already incremented). *)
+Fixpoint scan_reads (fuel : nat) (test : N -> N -> bool) (quote : N) (pat : N -> N) (i n : N) : list N :=
+  match fuel with
+  | O => []
+  | S f => if test i n then i :: (if (pat i =? quote)%N then [] else scan_reads f test quote pat (i + 1) n) else []
+  end.
+
+(* ---------------------------------------------------------------------------------------------
    Stylesheet::findTemplate, conflict recording.  Patterns are numbered; prio gives the priority
    used for the comparison; none_prio is XPath::getMatchScoreValue(eMatchScoreNone). *)
 Section Conflicts.
